@@ -4,6 +4,7 @@
 // survives the envelope: absent criticality = false, absent value = none).
 use vstd::prelude::*;
 use vstd::string::*;
+use vstd::std_specs::iter::IteratorSpec;
 verus! {
 
 //@include contracts/shared/lber_types.rs
